@@ -80,10 +80,10 @@ SPEC = {
 LEAN_THEOREMS = {
     "ws-collapse": ["Collapse.collapse_idem_ws", "Collapse.collapse_ws_noAdj",
                     "Collapse.collapse_ws_no_adjacent", "Collapse.collapse_ws_p_eq",
-                    "Collapse.collapse_ws_filter"],
+                    "Collapse.collapse_ws_filter", "Collapse.collapse_ws_fixed_iff"],
     "delete-runs": ["Collapse.collapse_idem_del", "Collapse.collapse_del_noAdj",
                     "Collapse.collapse_del_no_adjacent", "Collapse.collapse_del_filter",
-                    "Collapse.collapse_del_sublist"],
+                    "Collapse.collapse_del_sublist", "Collapse.collapse_del_fixed_iff"],
 }
 
 
